@@ -518,6 +518,26 @@ func genBatch(r *rng, tier, prop string, st *stats) []taggedScen {
 			}
 		}
 	}
+	// F8: the same batch node run twice, with scalar items, and outcomes that differ between the runs
+	for _, c := range []int{0, 2} {
+		for _, shape := range []string{"results", "ints", "strs"} {
+			for _, stop := range []bool{false, true} {
+				k := next()
+				p := batchPlan{n: 3, conc: c, N: 1, stop: stop, fb: "default", exec: []string{"res", "any"}[k%2], shape: shape, impl: impls[k%3], postAct: 5}
+				p.items = make([]itemPlan, 3)
+				for i := range p.items {
+					p.items[i] = itemPlan{cancelAt: -1, fbOK: true}
+				}
+				// item k%3: fails in the first run, succeeds in the second; item (k+1)%3 the other way round
+				p.items[k%3] = itemPlan{outs: []bool{false, true}, cancelAt: -1, fbOK: true}
+				p.items[(k+1)%3] = itemPlan{outs: []bool{true, false}, cancelAt: -1, fbOK: true}
+				ts := p.scen()
+				ts.sc.Runs = 2
+				ts.tags = append(ts.tags, "same_node_run_twice")
+				out = append(out, ts)
+			}
+		}
+	}
 	// F5: the queue stays full for a while: more items than workers + queue (2 x workers) so that the
 	// submitter is blocked in Submit, and the controller sits on the first quiescent point before
 	// it releases anything.  A pool that gives up blocking after some time shows here.
